@@ -194,6 +194,54 @@ def getItem (o : Obj) (key : Str) : Except Err Obj :=
 def getVar (o : Obj) (id : Str) : Except Err Obj :=
   (splitOn dot id).foldlM getItem o
 
+/-! ### `obj[key]` with any string: the dotted fall-back of `_getitem_string` -/
+
+/-- `".".join(ns)` -/
+def joinDot : List Str → Str
+  | [] => []
+  | [n] => n
+  | n :: m :: t => n ++ dot :: joinDot (m :: t)
+
+/-- what `obj[key]` hands back: an object of the tree itself (Python: `is`), or the fresh variable that
+    `BaseType.__getitem__(key)` builds (`copy.copy(self)` with `data = self._data[key]`) -/
+inductive Found where
+  | obj (o : Obj)
+  | derived (src : Obj) (d : DRef)
+deriving DecidableEq, Repr, Inhabited
+
+/-- `obj[".".join(segs)]` for `segs = key.split(".")`.
+
+    `StructureType._getitem_string` / `DatasetType._getitem_string`: the direct hit `_dict[_quote(key)]`; for a
+    dataset `""` and `"/"` are the dataset itself and any other key with a `/` takes the DAP4 path branch (not
+    modelled: `outside`); otherwise, with more than one segment, `self[segs[0]][".".join(segs[1:])]` and — when that
+    raises `KeyError`/`IndexError` — `self[".".join(segs[1:])]`; a single missing segment is a `KeyError`.
+    `BaseType.__getitem__(key)` indexes the data object (`None[key]` is a `TypeError`, which is not caught).
+    Both recursive calls drop the first segment: structural recursion on the segment list. -/
+def lookupSegs : List Str → Obj → Except Err Found
+  | [], _ => .error .keyError
+  | k :: rest, o =>
+    if o.hdr.kind = .base then
+      (if o.hdr.data = .none then .error .typeError
+       else .ok (.derived o (.item o.hdr.data (joinDot (k :: rest)))))
+    else match o.kids.find? (quote (joinDot (k :: rest))) with
+      | some c => .ok (.obj c)
+      | none =>
+        if o.hdr.kind = .dataset ∧ (joinDot (k :: rest) = [] ∨ joinDot (k :: rest) = [slash]) then .ok (.obj o)
+        else if o.hdr.kind = .dataset ∧ (joinDot (k :: rest)).contains slash then .error .outside
+        else if rest.isEmpty then .error .keyError
+        else
+          let first : Except Err Found :=
+            match o.kids.find? (quote k) with
+            | some c => lookupSegs rest c
+            | none => if o.hdr.kind = .dataset ∧ k = [] then lookupSegs rest o else .error .keyError
+          match first with
+          | .error .keyError => lookupSegs rest o
+          | .error .indexError => lookupSegs rest o
+          | r => r
+
+/-- `obj[key]`, `key` a string -/
+def lookup (o : Obj) (key : Str) : Except Err Found := lookupSegs (splitOn dot key) o
+
 /-! ### `__delitem__`, `__setitem__` -/
 
 def isContainer (k : Kind) : Bool := k != .base
